@@ -146,7 +146,7 @@ CHECKS["C08"] = {
             "binary16 reference (refs/C08_half_ref.hpp) that is itself cross-checked on every run against double arithmetic, TwoSum/round-to-odd and the F16C hardware. A 16-bit type makes exhaustive enumeration the right level.",
     "design_ref": "DESIGN.md section 3, C08",
     "note": "Trusted: the integer reference (cross-checked) and IEEE double arithmetic of the host. The 2^48 fma triples are covered on the two stated families only. double->half and int<->half are enumerated and "
-            "reported as information only (the statement does not claim them). NaN results compare as 'is NaN'.",
+            "reported as information only (the statement does not claim them). NaN results compare as 'is NaN'. long double sources (the generic float2half path) are judged on a neighbourhood alphabet in ulps of the 64-bit significand around every half value and midpoint, every cast entry point, sw and F16C builds; integer sources remain unjudged (outside the statement).",
     "technique": "exhaustive input enumeration (all 2^32 floats, all 2^16 halves, all 2^32 half pairs) against an exact integer reference, software vs F16C path digest comparison",
 }
 
@@ -269,11 +269,11 @@ CHECKS["C19"] = {
             "{exceptions, -fno-exceptions} x {g++, clang++} as a generated translation unit that includes only that header and then uses one facility of it (792 compilations in thorough; quick: all 12 configurations for the "
             "single include and 2 for the double include); thorough additionally all 1056 ordered header pairs in every configuration; two translation units that include all headers in opposite orders and call or odr-use "
             "every non-template function are linked as 1-TU and 2-TU programs and run (duplicate-definition / undefined-symbol detection, nm on a -fkeep-inline-functions object); 17 error-path scenarios are run in their own "
-            "process with -fno-exceptions and must die inside the failing call instead of continuing.",
+            "process with -fno-exceptions and must die inside the failing call instead of continuing. Unit U6: a generated corpus of 1 327 use programs (header x entry point x argument / template-argument kind, non-template functions in two linked translation units) is built, linked and run per configuration and must have the same verdict (value / rejected / run failure) in every configuration (quick: 6-row pairwise covering array of the 12 configurations; thorough: all 12).",
     "design_ref": "DESIGN.md section 3, C19",
     "note": "Trusted: the installed g++ 12 / clang++ 14 with libstdc++ (a missing include that libstdc++ supplies transitively is invisible). xjson.hpp is in scope with the nlohmann headers found in the sandbox. "
-            "Quick is a fixed sub-space of the matrix; a budget cut is reported as a cap.",
-    "technique": "exhaustive configuration enumeration (header x include form x standard x exception mode x compiler; header pairs; multi-TU links; error-path processes) with compiler, linker and exit status as oracle",
+            "Quick is a fixed sub-space of the matrix; a budget cut is reported as a cap. U6 judges configuration dependence only; uses ill-formed in every configuration are capability probes (18 cells, checks/C19/uses_rejected.json).",
+    "technique": "exhaustive configuration enumeration (header x include form x standard x exception mode x compiler; header pairs; multi-TU links; error-path processes) with compiler, linker and exit status as oracle; configuration-invariance of a generated use corpus with the other configurations' verdict as oracle",
 }
 
 NOT_YET = "check not built yet in this round; design in DESIGN.md section 3"
